@@ -8,6 +8,7 @@ import Sif.Generated.MintCallers
 import Sif.Generated.DispHooks
 import Sif.Generated.AccuReset
 import Sif.Generated.BlockShare
+import Sif.Generated.Migrations
 /-
   C20 — Policy-driven issuance is bounded.  Property theorems only.
 
@@ -211,6 +212,59 @@ theorem app_block_counter (cfg : MintCfg) (blocked : Addr → Bool) (k : Nat) (s
     were minted per block) -/
 theorem dispensation_begin_blocker_once :
     dispBeginEntries = 1 ∧ Sif.Generated.DispHooks.beginBlockersCalls = 1 := by decide
+
+/-! ### store migrations (what a software upgrade runs)
+
+  `app/setup_handlers.go` registers an upgrade handler that calls `mm.RunMigrations` with the module
+  version map stored on chain; every registered migration from a version the chain can still be
+  at is executed by the x/upgrade BeginBlocker. -/
+
+/-- A software upgrade is not an operation of the mint model: its state is exactly the stored
+    counter and the bank, which no migration may touch (facts `migrations_keep_mint_state`). -/
+def upgradeStep (s : MintState) : MintState := s
+
+theorem upgrade_preserves_mint_state (s : MintState) : upgradeStep s = s := rfl
+
+/-- the running-total predicate holds of the model: after any number of blocks (with upgrade steps
+    anywhere in between — identities) from a counter c₀ ≤ cap, the counter is c₀ plus the supply
+    created, and at most the cap -/
+theorem mint_total_model (cfg : MintCfg) (blocked : Addr → Bool) (n : Nat) (s s' : MintState) (c0 : Nat)
+    (hc : s.counter = some c0) (h0 : c0 ≤ cfg.cap) (h : runBlocks cfg blocked n s = .ok s') :
+    mintTotalOK cfg.cap c0 (s'.bank.sup cfg.denom - s.bank.sup cfg.denom) (ctr s') = true := by
+  obtain ⟨e, l⟩ := mint_counter_is_minted_n cfg blocked n s s' h
+  obtain ⟨s'', h', hc'⟩ := app_block_counter cfg blocked n s c0 hc h0
+  rw [h] at h'; cases h'
+  have hcs : ctr s = c0 := by simp [ctr, hc]
+  have hcs' : ctr s' = min (c0 + n * cfg.perBlock) cfg.cap := by simp [ctr, hc']
+  unfold mintTotalOK
+  simp only [Bool.and_eq_true, decide_eq_true_eq]
+  rw [hcs] at e l
+  have : ctr s' ≤ cfg.cap := by rw [hcs']; exact Nat.min_le_right _ _
+  constructor <;> omega
+
+/-- the registered migrations of x/clp and x/dispensation and the modules' consensus versions are
+    the expected ones (a new migration, a changed handler or a bumped version changes the fact).
+    The dispensation 1→2 migration does call `SetMintController` (observation O3): it ran on the
+    released chain before the mint programme's counter mattered and cannot run again on a chain
+    whose version map has dispensation at 2. -/
+theorem migrations_expected :
+    Sif.Generated.Migrations.consensusVersions = [("clp", 5), ("dispensation", 2)] ∧
+    Sif.Generated.Migrations.migrations.map (fun m => (m.1, m.2.1, m.2.2.1, m.2.2.2.2)) =
+      [ ("clp", 1, "m.MigrateToVer2", []), ("clp", 2, "m.MigrateToVer3", []), ("clp", 3, "m.MigrateToVer4", []),
+        ("clp", 4, "m.MigrateToVer5", []), ("dispensation", 1, "m.MigrateToVer2", ["SetMintController"]) ] := by
+  decide
+
+/-- versions of the released chain (its stored module version map) -/
+def releasedVersion (m : String) : Nat := if m = "dispensation" then 2 else if m = "clp" then 5 else 0
+
+/-- no migration that can still run on the released chain (from-version ≥ the released version)
+    reaches `InitGenesis`, `SetMintController`, `AddMintAmount`, `MintCoins`,
+    `SetBlockDistributionAccu` or `DistributeDepthRewards`: an upgrade is the identity on the mint
+    counter and the reward accumulator and creates nothing -/
+theorem migrations_keep_mint_state :
+    Sif.Generated.Migrations.migrations.all
+      (fun m => decide (m.2.1 < releasedVersion m.1) || decide (m.2.2.2.2 = [])) = true := by
+  decide
 
 /-! ## (c) `cap_const`: who can mint, who can write the counter (facts regenerated from the source)
 
